@@ -73,9 +73,7 @@ theorem Iter.get_isSome (e : Iter) : ∀ i, (e.get i).isSome = e.len.gt i := by
         cases b.len <;> simp [Len.add, h]; omega
       · simp only [h, if_false, ihb]
         cases b.len <;> simp [Len.add]; omega
-  | map1 f a ih => intro i; simp [Iter.get, Iter.len, ih]
-  | mapL f c a ih => intro i; simp [Iter.get, Iter.len, ih]
-  | mapR f a c ih => intro i; simp [Iter.get, Iter.len, ih]
+  | mapc f pre post a ih => intro i; simp [Iter.get, Iter.len, ih]
   | map2 f a b iha ihb =>
     intro i
     simp only [Iter.get, Iter.len, Len.gt_min, ← iha, ← ihb]
@@ -169,41 +167,7 @@ theorem Iter.stepOK (e : Iter) : StepOK e := by
         · rw [hstep] at hy ⊢
           obtain ⟨h1, h2⟩ := ihb.tail y hy
           exact ⟨fun i => by rw [h1, hget], by rw [hlen, h2]⟩
-  | map1 f a ih =>
-    cases hs : a.step with
-    | mk o a' =>
-      have hh := ih.head; rw [hs] at hh
-      cases o with
-      | none =>
-        refine ⟨?_, fun y hy => ?_⟩
-        · simp only [Iter.step, hs, Iter.get, ← hh]; rfl
-        · simp [Iter.step, hs] at hy
-      | some x =>
-        obtain ⟨htg, htl⟩ := ih.tail x (by rw [hs])
-        rw [hs] at htg htl
-        simp only at hh htg htl
-        refine ⟨?_, fun y _ => ⟨fun i => ?_, ?_⟩⟩
-        · simp only [Iter.step, hs, Iter.get, ← hh]; rfl
-        · simp only [Iter.step, hs, Iter.get, htg]
-        · simp only [Iter.step, hs, Iter.len, htl]
-  | mapL f c a ih =>
-    cases hs : a.step with
-    | mk o a' =>
-      have hh := ih.head; rw [hs] at hh
-      cases o with
-      | none =>
-        refine ⟨?_, fun y hy => ?_⟩
-        · simp only [Iter.step, hs, Iter.get, ← hh]; rfl
-        · simp [Iter.step, hs] at hy
-      | some x =>
-        obtain ⟨htg, htl⟩ := ih.tail x (by rw [hs])
-        rw [hs] at htg htl
-        simp only at hh htg htl
-        refine ⟨?_, fun y _ => ⟨fun i => ?_, ?_⟩⟩
-        · simp only [Iter.step, hs, Iter.get, ← hh]; rfl
-        · simp only [Iter.step, hs, Iter.get, htg]
-        · simp only [Iter.step, hs, Iter.len, htl]
-  | mapR f a c ih =>
+  | mapc f pre post a ih =>
     cases hs : a.step with
     | mk o a' =>
       have hh := ih.head; rw [hs] at hh
